@@ -490,9 +490,12 @@ class ServiceDiscoveryProtocol(SOMEIPDatagramProtocol):
         asyncio.get_event_loop().call_soon(self.announcer.connection_lost, exc)
 
     def reboot_detected(self, addr: _T_SOCKADDR) -> None:
-        asyncio.get_event_loop().call_soon(self.subscriber.reboot_detected, addr)
-        asyncio.get_event_loop().call_soon(self.discovery.reboot_detected, addr)
-        asyncio.get_event_loop().call_soon(self.announcer.reboot_detected, addr)
+        # must take effect before the entries of the message that revealed the reboot
+        # are handled: Subscribe entries are processed synchronously, so a deferred
+        # reboot would drop the subscription that was just acknowledged
+        self.subscriber.reboot_detected(addr)
+        self.discovery.reboot_detected(addr)
+        self.announcer.reboot_detected(addr)
 
     def sd_message_received(
         self, sdhdr: someip.header.SOMEIPSDHeader, addr: _T_SOCKADDR, multicast: bool
